@@ -199,7 +199,7 @@ theorem linearizeWith_affine (hfl : FlattenSound K) (hsi : SimplifySoundArith K)
     simp only [bind_ok, simplifyFlat_ok, get_ok, pure_ok] at hprog
     obtain ⟨objExp, s1, ⟨fl, hfl1, h1⟩, obj, s2, hlin, u, s3, hdrain, s4, s5, hget, hres⟩ := hprog
     cases h1; cases hget
-    have hobj' : AG (inScope d) (simplify fl) := AG_simplify _ (AG_flatten haff.obj hfl1)
+    have hobj' : AG (inScope d) objExp := AG_normalize haff.obj hfl1
     have R := lin_arith _ hobj'.1 _ _ _ _ hlin
     have hs2 := R.state
     subst hs2
@@ -212,7 +212,7 @@ theorem linearizeWith_affine (hfl : FlattenSound K) (hsi : SimplifySoundArith K)
     · simp [finalRow, usedVars]
     · intro x hx; exact hobj'.2 x (R.names x hx)
     · intro ρ v hv
-      exact R.value ρ v (hsi _ ρ v (AG_flatten haff.obj hfl1).1 (by rw [hfl _ _ _ ρ hfl1, hv]))
+      exact R.value ρ v (normalize_eval_arith hfl hsi haff.obj.1 hfl1 hv)
     · intro hdef
       exact hn3 (by simpa using hdef)
   · simp at h
